@@ -183,6 +183,8 @@ class ParsersWorld:
                     op["cancel"] = {"stmt": rf.choice([1, 1, 2, 2, 3, 4, 6, 9])}
                 elif f < 0.34 and swarm["line_cancel"]:
                     op["cancel"] = {"line": int(2 ** rf.uniform(3, 15))}
+                    if core.stream(seed, "alloc:%d" % i).random() < 0.5:
+                        op["cancel"]["as"] = rf.choice(["MemoryError", "MemoryError", "RecursionError"])
                 elif f < 0.42 and "dump" in op:
                     op["dump_fault"] = rf.choice(["EACCES", "ENOSPC", "EIO"])
             ops.append(op)
@@ -370,6 +372,7 @@ class ParsersWorld:
                 ctx["cancel_stmt"] = c.get("stmt")
                 task.lines = 0
                 task.cancel_at_line = c.get("line")
+                task.cancel_exc = {"MemoryError": MemoryError, "RecursionError": RecursionError}.get(c.get("as"))
                 plan = None
                 if op.get("dump_fault"):
                     plan = seams.IoPlan([{"site": "dump_open", "kind": op["dump_fault"]}])
@@ -398,7 +401,16 @@ class ParsersWorld:
                 finally:
                     ctx["cancel_stmt"] = None
                     task.cancel_at_line = None
+                    task.cancel_exc = None
                     seams.HOOKS.io = None
+                if ctx["fired"] == "line" and c.get("as"):
+                    # the call met a failing allocation: whether it raised or swallowed it, its own outcome is not judged;
+                    # every later call is
+                    faulted = True
+                    stats["alloc_fault_fired"] = stats.get("alloc_fault_fired", 0) + 1
+                    if outcome and outcome[0] == "ok":
+                        stats["alloc_fault_swallowed"] = stats.get("alloc_fault_swallowed", 0) + 1
+                        held.pop()
                 if ctx["fired"] == "stmt":
                     stats["cancel_stmt_fired"] += 1
                 elif ctx["fired"] == "line":
